@@ -16,7 +16,7 @@
 (***************************************************************************)
 EXTENDS Naturals, Sequences, FiniteSets, TLC, SequencesExt
 
-Sigma == {"a", "A", "_", "7", "dol", "sp", "nl", "cr", "vt", "ls", "bom", "ee", "as", "hi", "nul", "bs", "dle"}
+Sigma == {"a", "A", "_", "7", "dol", "sp", "nl", "cr", "vt", "ls", "bom", "ee", "as", "hi", "nul", "bs", "dle", "hy"}
 Word == {"a", "A", "_", "7"}
 Digit == {"7"}
 \* ECMA-262 WhiteSpace + LineTerminator
@@ -39,29 +39,33 @@ Lits == {[t |-> "lit", c |-> c] : c \in {"a", "A", "7", "sp", "ee", "as", "_"}}
 ClassAtoms == {[t |-> x] : x \in {"dot", "d", "D", "w", "W", "s", "S", "empty", "any"}}
 Anchors == {[t |-> x] : x \in {"bol", "eol", "wb", "nwb"}}
 \* bracket expressions: items are drawn from ItemKinds
-ItemKinds == {"a", "7", "sp", "az", "AZ", "09", "d", "w", "s", "S", "W", "D", "b", "n", "dol", "ee", "as"}
+\* "hy" is the escaped hyphen \- (ClassEscape :: -): a literal '-' wherever it stands
+ItemKinds == {"a", "7", "sp", "az", "AZ", "09", "d", "w", "s", "S", "W", "D", "b", "n", "dol", "ee", "as", "hy"}
 ItemSet(k) == CASE k = "a" -> {"a"} [] k = "7" -> {"7"} [] k = "sp" -> {"sp"} [] k = "az" -> Lower [] k = "AZ" -> Upper [] k = "09" -> Digit
                 [] k = "d" -> Digit [] k = "w" -> Word [] k = "s" -> Space [] k = "S" -> Sigma \ Space [] k = "W" -> Sigma \ Word [] k = "D" -> Sigma \ Digit
-                [] k = "b" -> {"bs"} [] k = "n" -> {"nl"} [] k = "dol" -> {"dol"} [] k = "ee" -> {"ee"} [] k = "as" -> {"as"}
+                [] k = "b" -> {"bs"} [] k = "n" -> {"nl"} [] k = "dol" -> {"dol"} [] k = "ee" -> {"ee"} [] k = "as" -> {"as"} [] k = "hy" -> {"hy"}
 ItemText(k) == CASE k = "a" -> "a" [] k = "7" -> "7" [] k = "sp" -> " " [] k = "az" -> "a-z" [] k = "AZ" -> "A-Z" [] k = "09" -> "0-9"
                  [] k = "d" -> "\\d" [] k = "w" -> "\\w" [] k = "s" -> "\\s" [] k = "S" -> "\\S" [] k = "W" -> "\\W" [] k = "D" -> "\\D"
-                 [] k = "b" -> "\\b" [] k = "n" -> "\\n" [] k = "dol" -> "$" [] k = "ee" -> "L:ee" [] k = "as" -> "L:as"
+                 [] k = "b" -> "\\b" [] k = "n" -> "\\n" [] k = "dol" -> "$" [] k = "ee" -> "L:ee" [] k = "as" -> "L:as" [] k = "hy" -> "\\-"
 Sets1 == {[t |-> "set", neg |-> n, items |-> <<k>>] : n \in BOOLEAN, k \in ItemKinds}
 Sets2 == {[t |-> "set", neg |-> n, items |-> <<k1, k2>>] : n \in BOOLEAN, k1 \in {"a", "d", "s", "az", "S"}, k2 \in {"7", "w", "b", "sp", "W", "as"}}
+\* the escaped hyphen between two atoms (it must not become a range), first and last
+Sets3 == {[t |-> "set", neg |-> n, items |-> it] : n \in BOOLEAN, it \in {<<"7", "hy", "a">>, <<"sp", "hy", "a">>, <<"hy", "a">>, <<"a", "hy">>, <<"d", "hy", "w">>, <<"7", "hy", "7">>}}
 
 Core == {[t |-> "lit", c |-> "a"], [t |-> "lit", c |-> "7"], [t |-> "lit", c |-> "sp"], [t |-> "dot"], [t |-> "d"], [t |-> "w"], [t |-> "s"], [t |-> "S"], [t |-> "W"],
          [t |-> "bol"], [t |-> "eol"], [t |-> "wb"], [t |-> "nwb"], [t |-> "esc", r |-> "\\n", c |-> "nl"], [t |-> "set", neg |-> TRUE, items |-> <<"s">>],
          [t |-> "set", neg |-> FALSE, items |-> <<"az", "7">>], [t |-> "any"], [t |-> "empty"]}
-Atoms == Escapes \cup Lits \cup ClassAtoms \cup Anchors \cup Sets1 \cup Sets2
+Atoms == Escapes \cup Lits \cup ClassAtoms \cup Anchors \cup Sets1 \cup Sets2 \cup Sets3
 
 (**************************** constructors *********************************)
-Unary == {"star", "plus", "opt", "lstar", "lplus", "lopt", "group", "nc", "rep02", "rep2", "rep11"}
+\* "ngroup" is a named group (?<n>...): a capturing group as far as matching goes
+Unary == {"star", "plus", "opt", "lstar", "lplus", "lopt", "group", "nc", "ngroup", "rep02", "rep2", "rep11"}
 Look == {"la", "nla", "lb", "nlb"}
 U(u, e) == [t |-> u, e |-> e]
 B(b, l, r) == [t |-> b, l |-> l, r |-> r]
 \* quantifiers apply to atoms that consume input (ECMA-262 forbids quantified assertions)
-Quant == Unary \ {"group", "nc"}
-Size2 == {U(u, a) : u \in Quant, a \in Atoms \ Anchors} \cup {U(u, a) : u \in {"group", "nc"}, a \in Atoms}
+Quant == Unary \ {"group", "nc", "ngroup"}
+Size2 == {U(u, a) : u \in Quant, a \in Atoms \ Anchors} \cup {U(u, a) : u \in {"group", "nc"}, a \in Atoms} \cup {U("ngroup", a) : a \in Core}
 CoreC == Core \ Anchors
 Size3 == {U(u, x) : u \in {"star", "plus", "opt", "lplus", "group", "nc", "rep2"}, x \in {U(v, a) : v \in {"nc", "group"}, a \in Core}}
          \cup {U(u, x) : u \in {"group", "nc"}, x \in {U(v, a) : v \in {"star", "plus", "opt"}, a \in CoreC}}
@@ -72,11 +76,13 @@ Size4 == {B(b, l, r) : b \in {"cat", "alt"}, l \in {U(u, a) : u \in {"star", "pl
 \* constructs that cannot be expressed in the linear-time engine: must run on the backtracking one
 Opaque == {U(u, a) : u \in Look, a \in Core}
           \cup {B("cat", U("group", a), [t |-> "backref"]) : a \in Core}
+          \* a named group referred to by name: \k<n> is a back-reference, never the text "k<n>"
+          \cup {B("cat", U("ngroup", a), [t |-> "kref"]) : a \in Core}
           \cup {B("cat", a, U(u, b)) : a \in {[t |-> "lit", c |-> "a"], [t |-> "w"]}, u \in Look, b \in {[t |-> "lit", c |-> "7"], [t |-> "s"]}}
 
 RECURSIVE MustFallback(_)
 MustFallback(a) ==
-  CASE a.t \in Look \/ a.t = "backref" -> TRUE
+  CASE a.t \in Look \/ a.t \in {"backref", "kref"} -> TRUE
     [] a.t \in {"cat", "alt"} -> MustFallback(a.l) \/ MustFallback(a.r)
     [] a.t \in Unary -> MustFallback(a.e)
     [] OTHER -> FALSE
@@ -103,7 +109,7 @@ M(a, s, i) ==
     [] a.t \in {"opt", "lopt"} -> {i} \cup M(a.e, s, i)
     [] a.t \in {"star", "lstar"} -> Clo(a.e, s, {i}, {i})
     [] a.t \in {"plus", "lplus"} -> LET F == M(a.e, s, i) IN Clo(a.e, s, F, F)
-    [] a.t \in {"group", "nc"} -> M(a.e, s, i)
+    [] a.t \in {"group", "nc", "ngroup"} -> M(a.e, s, i)
     [] a.t = "rep02" -> Rep(a.e, s, {i}, 2) \cup {i} \cup M(a.e, s, i)         \* {0,2}
     [] a.t = "rep2" -> Rep(a.e, s, {i}, 2)                                      \* {2}
     [] a.t = "rep11" -> LET F == M(a.e, s, i) IN Clo(a.e, s, F, F)              \* {1,}
@@ -122,7 +128,7 @@ Search(a, s) == \E i \in 0..Len(s) : M(a, s, i) # {}
 (******************************* rendering *********************************)
 \* pattern text as a token sequence; tokens "L:<sym>" are replaced by the concrete
 \* character of the symbol by the harness, everything else is literal pattern text
-Atomic(a) == IsClass(a) \/ a.t \in {"bol", "eol", "wb", "nwb", "group", "nc", "backref"} \/ a.t \in Look
+Atomic(a) == IsClass(a) \/ a.t \in {"bol", "eol", "wb", "nwb", "group", "nc", "ngroup", "backref", "kref"} \/ a.t \in Look
 RECURSIVE Render(_)
 Wrap(a) == IF Atomic(a) THEN Render(a) ELSE <<"(?:">> \o Render(a) \o <<")">>
 Render(a) ==
@@ -132,13 +138,14 @@ Render(a) ==
     [] a.t = "s" -> <<"\\s">> [] a.t = "S" -> <<"\\S">> [] a.t = "any" -> <<"[^]">> [] a.t = "empty" -> <<"[]">>
     [] a.t = "set" -> <<IF a.neg THEN "[^" ELSE "[">> \o [k \in 1..Len(a.items) |-> ItemText(a.items[k])] \o <<"]">>
     [] a.t = "bol" -> <<"^">> [] a.t = "eol" -> <<"$">> [] a.t = "wb" -> <<"\\b">> [] a.t = "nwb" -> <<"\\B">>
-    [] a.t = "backref" -> <<"\\1">>
+    [] a.t = "backref" -> <<"\\1">> [] a.t = "kref" -> <<"\\k<n>">>
     [] a.t = "cat" -> (IF a.l.t = "alt" THEN Wrap(a.l) ELSE Render(a.l)) \o (IF a.r.t = "alt" THEN Wrap(a.r) ELSE Render(a.r))
     [] a.t = "alt" -> Render(a.l) \o <<"|">> \o Render(a.r)
     [] a.t = "star" -> Wrap(a.e) \o <<"*">> [] a.t = "plus" -> Wrap(a.e) \o <<"+">> [] a.t = "opt" -> Wrap(a.e) \o <<"?">>
     [] a.t = "lstar" -> Wrap(a.e) \o <<"*?">> [] a.t = "lplus" -> Wrap(a.e) \o <<"+?">> [] a.t = "lopt" -> Wrap(a.e) \o <<"??">>
     [] a.t = "rep02" -> Wrap(a.e) \o <<"{0,2}">> [] a.t = "rep2" -> Wrap(a.e) \o <<"{2}">> [] a.t = "rep11" -> Wrap(a.e) \o <<"{1,}">>
     [] a.t = "group" -> <<"(">> \o Render(a.e) \o <<")">> [] a.t = "nc" -> <<"(?:">> \o Render(a.e) \o <<")">>
+    [] a.t = "ngroup" -> <<"(?<n>">> \o Render(a.e) \o <<")">>
     [] a.t = "la" -> <<"(?=">> \o Render(a.e) \o <<")">> [] a.t = "nla" -> <<"(?!">> \o Render(a.e) \o <<")">>
     [] a.t = "lb" -> <<"(?<=">> \o Render(a.e) \o <<")">> [] a.t = "nlb" -> <<"(?<!">> \o Render(a.e) \o <<")">>
 
